@@ -89,12 +89,16 @@ func c05MakeDocs() []interface{} {
 		return map[string]interface{}{"a": a, "b": map[string]interface{}{"c": c}, "s": s, "n": n,
 			"o": []interface{}{map[string]interface{}{"k": k1, "v": "p"}, map[string]interface{}{"k": k2, "v": "q"}}}
 	}
-	return []interface{}{
+	docs := []interface{}{
 		mk("xAz", "AzB", "hello world", []interface{}{3.0, 1.0, 2.0}, 2, 1),
 		mk("yBz", "BzC", "good morning", []interface{}{5.0, 4.0, 4.0}, 1, 2),
 		[]interface{}{mk("wCz", "CzD", "foo boo", []interface{}{1.0}, 3, 3), mk("vDz", "DzE", "o", []interface{}{2.0, 9.0}, 1, 0)},
 		map[string]interface{}{},
 	}
+	for i := range docs {
+		docs[i] = impl.Roomy(docs[i]) // arrays with spare capacity, as a JSON decoder produces them
+	}
+	return docs
 }
 
 func c05Compile(e c05Entry) *jsonata.Expr {
